@@ -46,6 +46,13 @@ def main() -> int:
 
 
 if __name__ == "__main__":
-    code = main()
+    try:
+        code = main()
+    finally:
+        import shutil
+
+        from . import runner
+
+        shutil.rmtree(runner._RUN_BASE, ignore_errors=True)  # os._exit below skips atexit handlers
     sys.stdout.flush()
     os._exit(code if isinstance(code, int) else 2)
